@@ -145,7 +145,9 @@ func hasAcct(list []string, tok string) bool {
 }
 
 // an account token names an account unless it is one of the malformed spellings (not bech32, empty, white space around an address)
-func validAcctTok(tok string) bool { return tok != "bad" && tok != "empty" && !strings.HasPrefix(tok, "p") }
+func validAcctTok(tok string) bool {
+	return tok != "bad" && tok != "empty" && !strings.HasPrefix(tok, "p")
+}
 
 // ---------- C01 ----------
 
@@ -674,6 +676,15 @@ func monC08(tr *Trace, br map[string]int) (out []Violation) {
 		}
 		if c.op[0] == "prevote" && len(c.op) >= 5 && c.res[0] == "ok" {
 			held[c.op[2]] = c.op[3]
+		}
+		if c.op[0] == "prevote" || c.op[0] == "consent" {
+			// the tally counts the votes revealed in the round: none of them leaves the file before the tally, whatever else its
+			// validator sends
+			for k, v := range c.pre.Votes {
+				if c.post.Votes[k] != v {
+					out = append(out, viol("C08", "revealed-vote-lost-before-tally", c.i, "the vote %s revealed by %s is no longer on file after %s (now %q)", v, k, strings.Join(c.op, " "), c.post.Votes[k]))
+				}
+			}
 		}
 		if c.op[0] == "vote" && len(c.op) >= 3 && c.res[0] == "ok" {
 			delete(held, c.op[2])
@@ -1588,6 +1599,25 @@ func diffLines(a, b []string) []string {
 func monC19(tr *Trace, br map[string]int) (out []Violation) {
 	stored := map[string]string{} // stored token identity -> submitted numeric value
 	walk(tr, func(c *ctxStep) {
+		// the NFTs presented to the feeders are the NFTs recorded: a record that has waited for its owner for a whole round is among
+		// the published sources under its own identity (chain, contract and token)
+		if r := c.post.Round; c.op[0] == "block" && r != nil && r.VE >= int64(r.Id) {
+			period := uint64(r.VE) - r.Id + 1
+			src := map[string]bool{}
+			for _, it := range r.Src {
+				if k := strings.IndexByte(it, ':'); k >= 0 {
+					src[decTok(it[k+1:])] = true
+				}
+			}
+			for _, u := range c.post.Utxrs {
+				if len(u.Rcpt) == 0 && u.Created+period < r.Id {
+					br["c19:waiting-record-in-sources"]++
+					if !src[decTok(u.Nft)] {
+						out = append(out, viol("C19", "waiting-nft-not-presented", c.i, "record %d:%d waits for the owner of %s since block %d; the round %d publishes %v", u.Tenant, u.Id, decTok(u.Nft), u.Created, r.Id, r.Src))
+					}
+				}
+			}
+		}
 		if c.op[0] != "record" || c.res[0] != "ok" {
 			return
 		}
